@@ -9,9 +9,19 @@
 (* handler calls StreamManager.resume); a failed attempt spawns a teardown *)
 (* reader; every session has its receive loop and its keepalive; there is  *)
 (* ONE transport object whose current connection all of them use.          *)
-(* Three constants switch between the intended design and the code as it   *)
-(* was found (DESIGN.md section 8: D6, D12, D27), so that TLC shows what   *)
-(* each defect breaks; the registered configuration is the intended one.   *)
+(* Five constants switch between the intended design and the code as it    *)
+(* was found (DESIGN.md section 8 and 11.3: D6, D12, D27, D26, D28), so     *)
+(* that TLC shows what each defect breaks; the registered configuration is  *)
+(* the intended one.                                                        *)
+(*                                                                         *)
+(* Keepalive: the keepalive goroutine of a session must end with it.  In    *)
+(* the code as found it was told to quit only when the receive loop         *)
+(* RETURNED - after the Disconnected handler, i.e. the whole reconnection   *)
+(* loop hosted by that receive loop.  Such a stale keepalive pings the      *)
+(* transport's current connection: the dead one (the ping fails, it goes on *)
+(* to close the transport: slowly, Close waits for the peer), nil after a   *)
+(* failed dial (D28: crash), or the new one (harmless).  The slow close     *)
+(* finally closes whatever connection the transport holds by then.          *)
 (***************************************************************************)
 EXTENDS Integers, Sequences, FiniteSets, TLC, Json
 
@@ -24,6 +34,8 @@ CONSTANTS MaxRounds,        \* losses of an established connection per behaviour
           TeardownEmitsDisconnected,   \* D6:  TRUE = code as found
           GracefulCloseBlocks,         \* D12: TRUE = code as found
           DialErrorPermanent,          \* D27: TRUE = code as found
+          KeepaliveOutlivesSession,    \* D26: TRUE = code as found (quit closed when the receive loop returns)
+          FailedDialClearsConn,        \* D28: TRUE = code as found (t.conn = nil after a failed dial)
           Emit
 
 VARIABLES phase,     \* "init" | "up" | "lost" | "failed" | "stopped"
@@ -36,11 +48,17 @@ VARIABLES phase,     \* "init" | "up" | "lost" | "failed" | "stopped"
           kinds,     \* how each session was established: "bind" | "resume"
           smid,      \* the server still knows a resumable session
           runReturned,
+          stale,        \* keepalive goroutines of ended sessions that are still running
+          closing,      \* stale keepalives whose ping failed and that are inside transport.Close()
+          connNil,      \* the transport's connection is nil (failed dial, code as found)
+          panic,
           hist
-vars == <<phase, loops, sessions, posts, conns, live, round, attempts, pendingDisc, kinds, smid, runReturned, hist>>
+vars == <<phase, loops, sessions, posts, conns, live, round, attempts, pendingDisc, kinds, smid, runReturned, stale, closing, connNil, panic, hist>>
+kavars == <<stale, closing, connNil, panic>>
 
 Init == /\ phase = "init" /\ loops = 0 /\ sessions = 0 /\ posts = 0 /\ conns = 0 /\ live = 0 /\ round = 1 /\ attempts = 0
         /\ pendingDisc = 0 /\ kinds = <<>> /\ smid = FALSE /\ runReturned = FALSE
+        /\ stale = 0 /\ closing = 0 /\ connNil = FALSE /\ panic = FALSE
         /\ hist = <<[drop |-> "none", attempts |-> <<>>, resume |-> "accept"]>>
 
 Established(kind) == /\ sessions' = sessions + 1 /\ posts' = posts + 1 /\ live' = live + 1
@@ -50,7 +68,7 @@ Established(kind) == /\ sessions' = sessions + 1 /\ posts' = posts + 1 /\ live' 
 FirstConnect == /\ phase = "init" /\ conns' = conns + 1
                 /\ Established("bind")
                 /\ hist' = [hist EXCEPT ![round].attempts = Append(@, "ok")]
-                /\ UNCHANGED <<loops, round, attempts, pendingDisc, runReturned>>
+                /\ UNCHANGED <<loops, round, attempts, pendingDisc, runReturned>> /\ UNCHANGED kavars
 
 \* the server terminates the established connection
 Drop(how) == /\ phase = "up" /\ round <= MaxRounds /\ loops = 0 /\ pendingDisc = 0
@@ -59,12 +77,14 @@ Drop(how) == /\ phase = "up" /\ round <= MaxRounds /\ loops = 0 /\ pendingDisc =
              /\ IF how = "graceful" /\ GracefulCloseBlocks
                 THEN phase' = "up" /\ UNCHANGED pendingDisc       \* nothing notices: the receive loop is parked for ever
                 ELSE phase' = "lost" /\ pendingDisc' = pendingDisc + 1
-             /\ UNCHANGED <<loops, sessions, posts, conns, kinds, smid, runReturned>>
+             \* the receive loop noticed the end of the session: intended = its keepalive is told to quit before the event is reported
+             /\ stale' = IF KeepaliveOutlivesSession /\ ~(how = "graceful" /\ GracefulCloseBlocks) THEN stale + 1 ELSE stale
+             /\ UNCHANGED <<loops, sessions, posts, conns, kinds, smid, runReturned, closing, connNil, panic>>
 
 \* a Disconnected event reaches the StreamManager's handler: it starts a reconnect loop in the calling goroutine
 HandleDisc == /\ pendingDisc > 0 /\ phase \in {"lost", "up"}
               /\ pendingDisc' = pendingDisc - 1 /\ loops' = loops + 1
-              /\ UNCHANGED <<phase, sessions, posts, conns, live, round, attempts, kinds, smid, runReturned, hist>>
+              /\ UNCHANGED <<phase, sessions, posts, conns, live, round, attempts, kinds, smid, runReturned, hist>> /\ UNCHANGED kavars
 
 \* one iteration of a reconnect loop fails; the loop backs off and tries again (or gives up on a permanent error)
 AttemptFails(o) == /\ loops > 0 /\ phase = "lost" /\ attempts < MaxAttempts
@@ -76,22 +96,44 @@ AttemptFails(o) == /\ loops > 0 /\ phase = "lost" /\ attempts < MaxAttempts
                       /\ phase' = IF perm /\ loops = 1 THEN "failed" ELSE phase
                    \* a failed negotiation leaves a teardown reader behind; in the code as found it reports a disconnection
                    /\ pendingDisc' = IF TeardownEmitsDisconnected /\ o \in {"reset", "transient"} THEN pendingDisc + 1 ELSE pendingDisc
-                   /\ UNCHANGED <<sessions, posts, live, round, kinds, smid, runReturned>>
+                   /\ connNil' = (o = "refuse" /\ FailedDialClearsConn)
+                   /\ UNCHANGED <<sessions, posts, live, round, kinds, smid, runReturned, stale, closing, panic>>
 
 AttemptOK(res) == /\ loops > 0 /\ phase \in {"lost", "up"}
                   /\ conns' = conns + 1 /\ loops' = loops - 1
                   /\ Established(IF smid /\ res = "accept" THEN "resume" ELSE "bind")
                   /\ hist' = [hist EXCEPT ![round].attempts = Append(@, "ok"), ![round].resume = res]
-                  /\ UNCHANGED <<round, attempts, pendingDisc, runReturned>>
+                  /\ connNil' = FALSE
+                  /\ UNCHANGED <<round, attempts, pendingDisc, runReturned, stale, closing, panic>>
+
+\* ---- a stale keepalive (only in the code as found)
+\* its ticker fires: it pings whatever the transport holds
+StalePing == /\ stale > closing /\ ~panic
+             /\ IF connNil THEN panic' = TRUE /\ UNCHANGED closing                         \* nil dereference: the process is gone
+                ELSE IF phase = "lost" THEN closing' = closing + 1 /\ UNCHANGED panic        \* the dead connection: ping fails, Close() begins
+                ELSE UNCHANGED <<closing, panic>>                                           \* the new connection: one more whitespace
+             /\ UNCHANGED <<phase, loops, sessions, posts, conns, live, round, attempts, pendingDisc, kinds, smid, runReturned, stale, connNil, hist>>
+\* Close() has waited for the peer's stream end long enough: it closes the transport's CURRENT connection
+StaleClose == /\ closing > 0 /\ ~panic
+              /\ closing' = closing - 1
+              /\ IF phase = "up" /\ ~connNil
+                 THEN /\ phase' = "lost" /\ live' = live - 1 /\ pendingDisc' = pendingDisc + 1  \* the re-established session is ended - by the client itself
+                      /\ stale' = stale                                                       \* (and its keepalive is stale in turn)
+                 ELSE stale' = stale - 1 /\ UNCHANGED <<phase, live, pendingDisc>>
+              /\ UNCHANGED <<loops, sessions, posts, conns, round, attempts, kinds, smid, runReturned, connNil, panic, hist>>
+\* the receive loop that hosted the reconnection returns: only now is its keepalive told to quit
+OldRecvReturns == /\ stale > closing /\ loops = 0 /\ pendingDisc = 0 /\ phase \in {"up", "failed"} /\ ~panic
+                  /\ stale' = closing
+                  /\ UNCHANGED <<phase, loops, sessions, posts, conns, live, round, attempts, pendingDisc, kinds, smid, runReturned, closing, connNil, panic, hist>>
 
 Stop == /\ loops = 0
         /\ \/ (phase = "up" /\ pendingDisc = 0 /\ round > MaxRounds)
            \/ phase = "failed"
         /\ phase' = "stopped" /\ runReturned' = TRUE /\ live' = 0
-        /\ UNCHANGED <<loops, sessions, posts, conns, round, attempts, pendingDisc, kinds, smid, hist>>
+        /\ UNCHANGED <<loops, sessions, posts, conns, round, attempts, pendingDisc, kinds, smid, hist>> /\ UNCHANGED kavars
 
 Next == FirstConnect \/ (\E h \in Drops : Drop(h)) \/ HandleDisc \/ (\E o \in Outcomes : AttemptFails(o))
-        \/ (\E r \in {"accept", "refuse"} : AttemptOK(r)) \/ Stop
+        \/ (\E r \in {"accept", "refuse"} : AttemptOK(r)) \/ Stop \/ StalePing \/ StaleClose \/ OldRecvReturns
 Spec == Init /\ [][Next]_vars /\ WF_vars(Next)
 
 \* ---------------------------------------------------------------- properties (C13)
@@ -104,6 +146,9 @@ C13_PermanentEndsLoop == phase = "failed" => loops = 0
 C13_OnlyPermanentErrorsEndLoop == phase = "failed" =>
       LET a == hist[round].attempts IN a # <<>> /\ a[Len(a)] \in {"auth", "authtext"}
 C13_StopReturnsRun == phase = "stopped" => runReturned
+C13_NoPanic == ~panic
+\* the keepalive of a session ends with it: none is left when the next session is up and settled
+C18_KeepaliveEndsWithSession == stale = 0
 \* every loss is followed by a new session unless a permanent error ends the loop
 C13_LossLeadsToSession == [](phase = "lost" => <>(phase \in {"up", "failed", "stopped"}))
 
